@@ -166,8 +166,8 @@ void Exec::op_copy(Client &c) {
 	// faithful: same data, names, sense, integrality and parameters
 	LP got; std::string err;
 	if (!lib_dump(q, step, got, err)) { violate("C16", "copy-dump-failed:" + src->life, err); o->broken = true; return; }
-	if (got.canon() != src->m.canon()) {
-		std::vector<std::string> la = split(got.canon(), '\n'), lb = split(src->m.canon(), '\n'); std::string d;
+	if (got.canon(true) != src->m.canon(true)) {
+		std::vector<std::string> la = split(got.canon(true), '\n'), lb = split(src->m.canon(true), '\n'); std::string d;
 		for (size_t i = 0; i < std::max(la.size(), lb.size()); i++) { std::string x = i < la.size() ? la[i] : "<none>", y = i < lb.size() ? lb[i] : "<none>"; if (x != y) { d = "copy: " + x + " | original model: " + y; break; } }
 		violate("C16", "copy-differs:" + src->life, d); o->broken = true; return;
 	}
